@@ -102,6 +102,7 @@ type D struct {
 
 func NewD(l []*big.Int) *D { return &D{L: l} }
 func (d *D) Left() int    { return len(d.L) - d.pos }
+func (d *D) Pos() int     { return d.pos }
 func (d *D) Big() *big.Int {
 	if d.pos >= len(d.L) {
 		d.Bad = true
